@@ -18,6 +18,8 @@ CRASH_CLASSES = [
     ('ascii-smallmem-nosync', 'ascii', {'memtable_size': 400, 'max_memtables': 4, 'sync_mode': 0, 'compact_sec': 3600}, 1.0),
     ('binary-smallmem-batchsync', 'binary', {'memtable_size': 300, 'max_memtables': 4, 'sync_mode': 1, 'sync_bytes': 150, 'compact_sec': 3600}, 1.0),
     ('big-midmem-immsync', 'big', {'memtable_size': 100000, 'max_memtables': 4, 'sync_mode': 2, 'compact_sec': 3600}, 1.0),
+    # values of 40 KB / 70 KB with an unsynced log: the 64 KB log buffer is partly full when the next (batch) write arrives
+    ('big-bigmem-nosync', 'big', {'memtable_size': 1 << 22, 'max_memtables': 4, 'sync_mode': 0, 'compact_sec': 3600}, 1.0),
 ]
 
 FOLLOWUP = [
@@ -343,7 +345,7 @@ def check_C02(ctx):
     ctx.assumptions += ['process death, not power failure: what was handed to write(2) survives; fsync is visible only through hook order',
                         'stop points are the hook sites (Appendix A of DESIGN.md) - a stop between two sites behaves like a stop at one of them for the state on disk',
                         'SyncBatch is held to the SyncNone contract between its thresholds']
-    tlc_mc(ctx, 'MC_Store', 'MC_Store_crash.cfg' if ctx.quick() else 'MC_Store_crash_thorough.cfg', timeout=280 if ctx.quick() else 3000)
+    tlc_mc(ctx, 'MC_Store', 'MC_Store_crash.cfg' if ctx.quick() else 'MC_Store_crash_thorough.cfg', timeout=900 if ctx.quick() else 3000)
     replay_witnesses(ctx, 'C02')
     gated_rotation(ctx, 'C02')
     progs = programs(ctx, 8 if ctx.quick() else 60)
